@@ -8,11 +8,13 @@ import (
 	"fmt"
 	"os"
 	"strconv"
+	"strings"
 	"testing"
 
 	"github.com/llir/llvm/ir/constant"
 	"github.com/llir/llvm/ir/metadata"
 	"github.com/llir/llvm/ir/types"
+	"github.com/llir/llvm/ir/value"
 )
 
 type verifC19Writer struct {
@@ -117,6 +119,54 @@ func TestVerifC19(t *testing.T) {
 		}
 		if variant == 7 {
 			fmt.Printf("REPLAY-SAMPLE variant %d: %d bytes, failure injected at every offset 0..%d with and without short writes\n", variant, len(want), len(want))
+		}
+	}
+	// large printed units (a function body and a module-level asm string of several KiB each): writers that buffer
+	// or bypass a buffer by size behave differently here; failure offsets sampled (every 53rd byte and around the
+	// multiples of 512)
+	big := func() *Module {
+		m := NewModule()
+		m.ModuleAsms = append(m.ModuleAsms, strings.Repeat("nop; ", 1200))
+		f := m.NewFunc("big", types.I32, NewParam("x", types.I32))
+		b := f.NewBlock("")
+		var v value.Value = f.Params[0]
+		for i := 0; i < 300; i++ {
+			v = b.NewAdd(v, f.Params[0])
+		}
+		b.NewRet(v)
+		m.NewGlobalDef("g", constant.NewInt(types.I32, 1))
+		return m
+	}
+	want := big().String()
+	var offs []int
+	for k := 0; k <= len(want); k += 53 {
+		offs = append(offs, k)
+	}
+	for k := 512; k < len(want); k += 512 {
+		offs = append(offs, k-1, k, k+1)
+	}
+	offs = append(offs, len(want)-1, len(want))
+	for _, k := range offs {
+		for _, short := range []bool{false, true} {
+			cases++
+			w := &verifC19Writer{limit: k, short: short}
+			n, err := big().WriteTo(w)
+			desc := fmt.Sprintf("large units (%d bytes), writer failing at offset %d (short=%v)", len(want), k, short)
+			if int(n) != len(w.got) {
+				fail("%s: reported n=%d but the writer accepted %d bytes", desc, n, len(w.got))
+			}
+			if err != w.firstErr {
+				fail("%s: reported err=%v, first error of the writer was %v", desc, err, w.firstErr)
+			}
+			if w.afterFail != 0 {
+				fail("%s: %d Write calls after the failure", desc, w.afterFail)
+			}
+			if string(w.got) != want[:len(w.got)] {
+				fail("%s: delivered bytes are not a prefix of String()", desc)
+			}
+			if short && k < len(want) && len(w.got) != k {
+				fail("%s: %d bytes delivered, want exactly %d", desc, len(w.got), k)
+			}
 		}
 	}
 	fmt.Printf("REPLAY-CASES %d\n", cases)
